@@ -1,6 +1,8 @@
 package verifh
 
 import (
+	"strconv"
+
 	"gorm.io/gorm/internal/verifrt"
 )
 
@@ -52,6 +54,13 @@ func H_C01_WhereInts(shape int) {
 	verifrt.Observe("sql", sql)
 	verifrt.Observe("nvars", len(stmt.Vars))
 	verifrt.Assert(len(binds) == len(stmt.Vars), "P2.count")
+	if _, err := strconv.Atoi(tpl); err == nil {
+		// a numeric string is documented as a primary-key value: it is bound, not spliced
+		verifrt.Reach("numeric")
+		verifrt.Assert(len(stmt.Vars) == 1, "P3.numeric")
+		verifrt.Assert(verifrt.SameValue(stmt.Vars[0], tpl), "P3.numeric")
+		return
+	}
 	verifrt.Assert(len(stmt.Vars) == sh.K, "P3.dropped")
 	for i := range stmt.Vars {
 		verifrt.Assert(verifrt.SameValue(stmt.Vars[i], args[i]), "P3.order")
